@@ -45,6 +45,11 @@ def main() -> int:
         ctx.stats['classes'] = len(program.classes)
         ctx.stats['functions'] = len(program.all_funcs)
         mod.run(ctx, program)
+        if ctx.errors:
+            for e in ctx.errors:
+                print(f'ANALYSIS-ERROR: property={prop} {e}')
+            rc = report.finish(ctx, started, mod.EXPLANATION, seed, replay_key) if ctx.findings else 2
+            return 1 if rc == 1 else 2
         return report.finish(ctx, started, mod.EXPLANATION, seed, replay_key)
     except model.AnalysisError as e:
         print(f'ANALYSIS-ERROR: property={prop} {e}')
